@@ -37,11 +37,14 @@ def send_data_contract(data: bytes, script: List[int]) -> bool:
     """
     pre: 1 <= len(data) <= 8
     pre: len(script) <= 5
-    pre: all(-2 <= s <= 8 for s in script)
+    pre: all(-3 <= s <= 8 for s in script)
     post: _
     """
     c = _conn(script)
-    ok = c.send_data(data)
+    try:
+        ok = c.send_data(data)
+    except (ValueError, OSError):
+        ok = False                      # an exception out of send_data (socket closed under the sender) is not a success report
     hard_error = c._sock.hard_error
     if ok:
         # success => the socket accepted exactly the bytes of this send, once, in order
@@ -144,7 +147,7 @@ OBLIGATIONS = [
                 "thorough": ["len(script) == %d and len(data) <= 4" % k for k in range(6)]
                 + ["len(script) == %d and len(data) == %d" % (k, n) for k in range(6) for n in (5, 6, 7, 8)]},
          functions=["secsgem.common.tcp_connection.TcpConnection.send_data"],
-         bounds="quick: data 1..6 symbolic bytes, every script of <= 4 send() outcomes (accept n bytes / EWOULDBLOCK / EPIPE), then a "
+         bounds="quick: data 1..6 symbolic bytes, every script of <= 4 send() outcomes (accept n bytes / EWOULDBLOCK / EPIPE / one byte and then closed locally: select raises ValueError, send EBADF), then a "
                 "draining peer; thorough: data 1..8, scripts <= 5",
          outside="kernel behaviour beyond the documented send()/select() contract; messages longer than 8 bytes (the loop is size-independent)",
          findings=[dict(id="C10-partial-send", pred=PARTIAL)]),
